@@ -74,9 +74,24 @@ theorem unpack_decimal128_eq_model (buf : Bytes) :
     simp only [i0, i1, i2, i3, i4, i5, i6, i7, i8, i9, i10, i11, i12, i13, i14, i15, hr, p14, p15, unpack_decimal128.for1,
       bind, Except.bind, pure, Except.pure, bitAnd_nat _ 127 127 rfl, bitAnd_nat _ 1 1 rfl, bitAnd_nat _ 128 128 rfl,
       shl_nat _ 7 7 rfl, shr_nat _ 1 1 rfl, bitOr_nat, Except.map]
+    have hm : unpackLoop (List.take 14 (b0 :: b1 :: b2 :: b3 :: b4 :: b5 :: b6 :: b7 :: b8 :: b9 :: b10 :: b11 :: b12 :: b13 :: b14 :: b15 :: rest)).reverse (b14.toNat &&& 1)
+        = (((((((((((((((b14.toNat &&& 1) * 256 + b13.toNat) * 256 + b12.toNat) * 256 + b11.toNat) * 256 + b10.toNat) * 256
+            + b9.toNat) * 256 + b8.toNat) * 256 + b7.toNat) * 256 + b6.toNat) * 256 + b5.toNat) * 256 + b4.toNat) * 256
+            + b3.toNat) * 256 + b2.toNat) * 256 + b1.toNat) * 256 + b0.toNat) := rfl
+    have h256 : ((256 : Nat) : Int) = 256 := rfl
+    simp only [decView, Gen.DECIMAL128_BIAS, hm, Int.natCast_add, Int.natCast_mul, h256]
     by_cases hs : b15.toNat &&& 128 = 0
-    · simp [hs, decView, unpackLoop, Gen.DECIMAL128_BIAS]
-    · simp [hs, decView, unpackLoop, Gen.DECIMAL128_BIAS]
+    · have d1 : (decide ((((0 : Nat)) : Int) ≠ 0)) = false := by decide
+      have d2 : (decide ((0 : Int) = 1)) = false := by decide
+      have d3 : ((0 : Nat) != 0) = false := by decide
+      simp only [hs, d1, d2, d3, Bool.false_eq_true, if_false]
+      rfl
+    · have hne : ((b15.toNat &&& 128 : Nat) : Int) ≠ 0 := by omega
+      have d1 : (decide (((b15.toNat &&& 128 : Nat) : Int) ≠ 0)) = true := decide_eq_true hne
+      have d2 : (decide ((1 : Int) = 1)) = true := by decide
+      have d3 : ((b15.toNat &&& 128) != 0) = true := by simpa [bne_iff_ne] using hs
+      simp only [d1, d2, d3, if_true]
+      rfl
   all_goals rfl
 
 /-! ### `_pack_decimal128` from the decimal triple on -/
